@@ -135,7 +135,11 @@ func (fc *FnCtx) rangeInit(in *ssa.Range, st *State) Val {
 	x := fc.term(fc.val(in.X, st))
 	mt, isMap := types.Unalias(in.X.Type()).Underlying().(*types.Map)
 	if !isMap {
-		fc.unsup("range over string by rune")
+		// range over a string by rune: abstracted (each step yields an unconstrained position within
+		// the string and an unconstrained rune, or ends the iteration)
+		fc.note("range over a string by rune in " + fc.fnName() + " is abstracted: position and rune of each step are unconstrained")
+		fc.strIters[in] = x
+		return tb.Const("iter!"+in.Name(), "Opaque")
 	}
 	ks := fc.so.Sort(mt.Key())
 	visKey := fmt.Sprintf("iter:%s:%s", fc.fnName(), in.Name())
@@ -151,7 +155,18 @@ func (fc *FnCtx) rangeInit(in *ssa.Range, st *State) Val {
 func (fc *FnCtx) rangeNext(in *ssa.Next, st *State) Val {
 	tb := fc.tb
 	if in.IsString {
-		fc.unsup("range over string by rune")
+		var str *Term
+		if r, ok := in.Iter.(*ssa.Range); ok {
+			str = fc.strIters[r]
+		}
+		okv := tb.Fresh("strnext_ok", "Bool")
+		k := tb.Fresh("strnext_i", "Int")
+		v := tb.Fresh("strnext_r", "Int")
+		if str != nil {
+			fc.assume(st, tb.Implies(okv, tb.And(tb.Le(tb.Int(0), k), tb.Lt(k, tb.App("s_len", "Int", str)))))
+		}
+		fc.assume(st, tb.And(tb.Le(tb.Int(0), v), tb.Le(v, tb.Int(0x10FFFF))))
+		return Tuple{okv, k, v}
 	}
 	r, ok := in.Iter.(*ssa.Range)
 	if !ok {
